@@ -130,3 +130,8 @@ def run(tier):
 
 def replay(path):
     return LC.replay(path)
+
+
+def selftest():
+    import os
+    return LC.selftest(("2", 2, "P2", (1, 1)), seeded=os.environ.get("VERIF_SELFTEST_SEEDED", "1") == "1")
